@@ -227,6 +227,10 @@ def sstep (f : Nat) (st : SSt α) : XOp α → Option (SSt α × Obs α)
     match st.pool[i]? with
     | some (some _) => some (st, .err "AttributeError")
     | _ => some (st, .err "noobj")
+  | .skipBad i e =>
+    match st.pool[i]? with
+    | some (some _) => some (⟨st.heap, st.pool.set i (some (.evs [.error e]))⟩, .unit)
+    | _ => some (st, .err "noobj")
 
 def srun (f : Nat) : SSt α → List (XOp α) → List (Option (Obs α))
   | _, [] => []
